@@ -218,7 +218,7 @@ class TypedNode(Node):
         """Return index in sibling list."""
         if any_kind:
             return self._get_sibling_index()
-        kc = self.parent.get_children(self.kind)
+        kc = self._parent.get_children(self.kind)
         for i, n in enumerate(kc):  # compare by identity (not `kc.index(self)`)
             if n is self:
                 return i
